@@ -282,9 +282,10 @@ def analyse(fn, facts, E, is_prim_call, keys_by_sig):
     for st, g, loops in ir.guarded_statements(fn["body"], env_r):
         if st.get("k") == "Return":
             ret_guards[id(st)] = g
+    in_lambda = set(id(x) for l_ in ir.walk(fn["body"]) if l_.get("k") == "Lambda" for x in ir.walk(l_))
     for n in ir.walk(fn["body"]):
-        if n.get("k") != "Return":
-            continue
+        if n.get("k") != "Return" or id(n) in in_lambda:
+            continue            # (a return inside a lambda is the lambda's own)
         e = n.get("e")
         if e is None:
             continue
